@@ -459,3 +459,89 @@ fix: ($B, lifecycle.update(['$A']))",
     test_open_editor_error_handling();
   }
 }
+
+#[cfg(feature = "verif-hooks")]
+pub mod verif_hooks {
+  //! Drive the real `process_diffs_interactive` / `apply_rewrite` / `InteractivePrinter::process`
+  //! with caller-supplied diff lists (accept-all mode, a printer that prints nothing).
+  use super::*;
+
+  pub type RawDiff = (Range<usize>, String);
+
+  pub struct NullPrinter;
+  pub struct NullProcessor;
+  impl PrintProcessor<()> for NullProcessor {
+    fn print_rule(
+      &self,
+      _: Vec<NodeMatch>,
+      _: SimpleFile<Cow<str>, &String>,
+      _: &RuleConfig<SgLang>,
+    ) -> Result<()> {
+      Ok(())
+    }
+    fn print_matches(&self, _: Vec<NodeMatch>, _: &Path) -> Result<()> {
+      Ok(())
+    }
+    fn print_diffs(&self, _: Vec<Diff>, _: &Path) -> Result<()> {
+      Ok(())
+    }
+    fn print_rule_diffs(&self, _: Vec<(Diff, &RuleConfig<SgLang>)>, _: &Path) -> Result<()> {
+      Ok(())
+    }
+  }
+  impl Printer for NullPrinter {
+    type Processed = ();
+    type Processor = NullProcessor;
+    fn get_processor(&self) -> NullProcessor {
+      NullProcessor
+    }
+    fn process(&mut self, _: ()) -> Result<()> {
+      Ok(())
+    }
+  }
+
+  fn to_diffs<D: Clone>(path: &Path, old_source: String, raw: Vec<RawDiff>, d: D) -> Diffs<D> {
+    Diffs {
+      path: path.to_path_buf(),
+      old_source,
+      contents: raw
+        .into_iter()
+        .map(|(range, replacement)| InteractiveDiff {
+          replacement,
+          range,
+          first_line: 0,
+          display: d.clone(),
+        })
+        .collect(),
+    }
+  }
+
+  /// `process_diffs_interactive` with accept-all: the confirmed diffs and `committed_cnt`
+  pub fn process_diffs_accept_all(raw: Vec<RawDiff>) -> (Vec<RawDiff>, usize) {
+    let mut printer = InteractivePrinter::new(NullPrinter, true, false).expect("printer");
+    let diffs = to_diffs(Path::new("UNUSED"), String::new(), raw, ());
+    let (confirmed, _all) = process_diffs_interactive(&mut printer, diffs).expect("accept all");
+    let out = confirmed
+      .contents
+      .into_iter()
+      .map(|d| (d.range, d.replacement))
+      .collect();
+    (out, printer.committed_cnt)
+  }
+
+  /// `apply_rewrite` on a confirmed list
+  pub fn apply_rewrite(old_source: String, raw: Vec<RawDiff>) -> String {
+    super::apply_rewrite(to_diffs(Path::new("UNUSED"), old_source, raw, ()))
+  }
+
+  /// the printer side of `--update-all`: `InteractivePrinter::process` on one `Diffs` payload per
+  /// entry (path, old_source snapshot, diffs), in order, then `committed_cnt`
+  pub fn update_all(payloads: Vec<(PathBuf, String, Vec<RawDiff>)>) -> Result<usize> {
+    let mut printer = InteractivePrinter::new(NullPrinter, true, false)?;
+    for (path, old_source, raw) in payloads {
+      let diffs = to_diffs(&path, old_source, raw, ());
+      printer.process(InteractivePayload::Diffs(diffs))?;
+    }
+    Ok(printer.committed_cnt)
+  }
+}
